@@ -5,12 +5,14 @@ import common, dsutil
 from common import quiet
 
 PROP = 'C14'
-LEAN_MODULES = ['XyzProofs.Props.C14']
+LEAN_MODULES = ['XyzProofs.Props.C14', 'XyzProofs.Refine.Reap']
 THEOREMS = ['StoreIO.c14_ext_idempotent', 'StoreIO.c14_same_path', 'StoreIO.c14_path_rule', 'StoreIO.c14_ext_table',
-            'StoreIO.c14_roundtrip_modulo_attrs', 'StoreIO.c14_attr_rule', 'StoreIO.tagCodec_inverse']
+            'StoreIO.c14_roundtrip_modulo_attrs', 'StoreIO.c14_attr_rule', 'StoreIO.tagCodec_inverse',
+            'Refine.autoAddExt_refines']
 ANCHORS = ['engineExt', 'extRuleSubstring', 'extAppendCount', 'saveDsExtends', 'loadDsExtends', 'attrExempt',
            'attrNoneStr', 'attrTrueStr', 'attrFalseStr', 'deleteRemoveExtended', 'saveMergeExistsExtended',
-           'saveMergeLoadsWithEngine', 'saveMergeTrue', 'saveMergeFalse', 'saveMergeNone']
+           'saveMergeLoadsWithEngine', 'saveMergeTrue', 'saveMergeFalse', 'saveMergeNone',
+           'autoAddExt']
 RULE = ("a case is a dataset with 0-4 dimensions (sizes 1-3; int, float, str labels or no coordinate), 1-3 variables of "
         "kind int / float / complex / bool / str over any subset of the dimensions (0-d included), NaN patterns in float "
         "and complex data, attributes None / True / False / str / int / float, an engine (h5netcdf, joblib), a file name "
